@@ -135,6 +135,8 @@ TEXTS = ['"a"', '""', '"a b"', '"é"', '"€"', '"\U0001F600"', r'"\""', r'"\\"'
          r'"\uD800A"', r'"\u{D800}"', r'"\u{DFFF}"', r'"\u{}"', r'"\u{g}"', r'"\u12"', r'"\x41"', r'"\a"', r'"\'"', r'"a\u0000b"', r'"￿"', r'"퟿"',
          r'"\u{d7ff}"', r'"􏿿"', r'"\uDBFF\uDBFF"', '"q;c"', '"tab\\there"', r'"\u{1f600}\u{1F600}"']
 
+# raw characters outside SCHAR (control characters, DEL, above U+10FFFD) and the raw boundary characters inside it
+TEXTS += ['"a\tb"', '"a\nb"', '"\x00"', '"\x1f"', '"\x7f"', '"\x80"', '"\x9f"', '"\xa0"', '"\U0010fffd"', '"\U0010fffe"', '"x\U0010ffffy"', '" "', '"~"']
 # systematic escape boundaries: every surrogate pair over the boundary code units, lone halves, BMP and \\u{...} boundaries
 for _hi in ("D800", "D801", "D83D", "dbfe", "DBFF"):
     for _lo in ("DC00", "DC01", "de00", "DFFE", "DFFF", "DBFF", "E000", "0041"):
